@@ -728,6 +728,7 @@ def run(ctx):
                 res.disagreements.append(dict(dis, case=case))
             for sig, what in viols:
                 res.count('violation.' + sig)
+                res.count('violation-found-in.' + kind.split('+')[0])
                 if any(v['sig'] == sig for v in res.violations):
                     continue
                 small = case
